@@ -336,25 +336,25 @@ func applyFloatConstraints(constraints *validate.FieldRules, schema *base.Schema
 
 	// Greater than or equal (minimum)
 	if floatConstraints.HasGte() {
-		minValue := float64(floatConstraints.GetGte())
+		minValue := float32Bound(floatConstraints.GetGte())
 		schema.Minimum = &minValue
 	}
 
 	// Greater than (exclusive minimum)
 	if floatConstraints.HasGt() {
-		minValue := float64(floatConstraints.GetGt())
+		minValue := float32Bound(floatConstraints.GetGt())
 		schema.ExclusiveMinimum = &base.DynamicValue[bool, float64]{N: 1, B: minValue}
 	}
 
 	// Less than or equal (maximum)
 	if floatConstraints.HasLte() {
-		maxValue := float64(floatConstraints.GetLte())
+		maxValue := float32Bound(floatConstraints.GetLte())
 		schema.Maximum = &maxValue
 	}
 
 	// Less than (exclusive maximum)
 	if floatConstraints.HasLt() {
-		maxValue := float64(floatConstraints.GetLt())
+		maxValue := float32Bound(floatConstraints.GetLt())
 		schema.ExclusiveMaximum = &base.DynamicValue[bool, float64]{N: 1, B: maxValue}
 	}
 
@@ -376,6 +376,16 @@ func applyFloatConstraints(constraints *validate.FieldRules, schema *base.Schema
 			})
 		}
 	}
+}
+
+// float32Bound widens a float bound the way it is written in JSON: through its shortest decimal form.
+// float64(float32(0.1)) is 0.10000000149011612, which the JSON form 0.1 of that very value does not reach.
+func float32Bound(v float32) float64 {
+	f, err := strconv.ParseFloat(strconv.FormatFloat(float64(v), 'g', -1, 32), 64)
+	if err != nil {
+		return float64(v)
+	}
+	return f
 }
 
 // applyDoubleConstraints applies double validation constraints to the schema.
